@@ -4,6 +4,9 @@ package c20
 import (
 	"bytes"
 	"fmt"
+	"net/http"
+	"net/http/httptest"
+	"regexp"
 	"runtime"
 	"strconv"
 	"strings"
@@ -24,7 +27,7 @@ func TestMain(m *testing.M) {
 		Property: "C20", Level: "exploration",
 		Rule: "sequential part: rapid draws histories over one MemLogger: write through core j (directly through Core.Write or through a zap.Logger built on it, including entries below the level enabler, which must not be recorded), derive a new core from core j (Core.With, or zap.Logger.With) before any write, mid-stream and after wrap-around, read (GetLogs), print (WriteLogs at detail 1..3); the total number of accepted writes is drawn from {0..20, 1000..1050 (around the capacity 1024), 2100..4000}. Oracle: the global list of accepted writes (message = global sequence number); every GetLogs result, evaluated when it returns, equals the last min(total,1024) entries newest first, and WriteLogs prints the same messages in the same order. " +
 			"Concurrent part (race detector on): 2..8 goroutines, each owning the root core or a derived core, write numbered entries while reader goroutines call GetLogs and inspect what they get; after the join GetLogs must hold min(total,1024) entries, no duplicates, only written entries, per goroutine a newest-first suffix of its writes, and everything when total <= 1024; any race report fails the run. " +
-			"Non-trivial = a derived core was created after at least one write and both it and its parent wrote afterwards, or total > 1024; distinct = distinct history.",
+			"A plain test drives the package's own wiring: InitLogging, entries through the three global loggers and loggers derived from them, and the three HTTP handlers at detail 0..3 (below, at and above the capacity). Non-trivial = a derived core was created after at least one write and both it and its parent wrote afterwards, or total > 1024; distinct = distinct history.",
 		Assumptions: []string{"fields attached by With are not part of a retained entry and are not compared", "what happens later to slices returned by earlier reads is judged only in the concurrent part (by the race detector)"},
 	})
 	ev.Main(m)
@@ -456,6 +459,66 @@ func TestRaceConcurrent(t *testing.T) {
 		ev.Case(desc+fmt.Sprint(derived, nr), derived > 0 || total > logging.BufferSize, "concurrent", fmt.Sprintf("derived-writers:%d", min(derived, 3)))
 		if ev.WantSample() {
 			ev.Sample(map[string]any{"concurrent_writers": per, "derived_cores": derived, "readers": nr, "total": total})
+		}
+	})
+}
+
+// The package's own wiring: InitLogging builds the global loggers on top of in-memory buffers and the three HTTP
+// handlers print them. Entries written through the global loggers and through loggers derived from them must come
+// back from the handlers newest first, the most recent 1024 of each, at every detail level.
+func TestHandlers(t *testing.T) {
+	ev.Guard(t, "TestHandlers", func() {
+		logging.InitLogging("development", t.TempDir())
+		type stream struct {
+			name    string
+			lg      *zap.Logger
+			handler func(http.ResponseWriter, *http.Request)
+			written []string
+		}
+		streams := []*stream{
+			{name: "L", lg: logging.Logger, handler: logging.LogWriter},
+			{name: "N", lg: logging.N2n, handler: logging.N2NLogWriter},
+			{name: "M", lg: logging.MemUsage, handler: logging.MemLogWriter},
+		}
+		re := regexp.MustCompile(`hm-(\d+)-([LNM])-end`)
+		seed := ev.SeedFor("TestHandlers")
+		counts := []int{3, 1024 + int(seed%7), 40}
+		for si, s := range streams {
+			derived := s.lg.With(zap.String("who", "derived-"+s.name))
+			check := func(when string) {
+				for detail := 0; detail <= 3; detail++ {
+					rec := httptest.NewRecorder()
+					s.handler(rec, httptest.NewRequest("GET", fmt.Sprintf("/?detail=%d", detail), nil))
+					var got []string
+					for _, l := range strings.Split(rec.Body.String(), "\n") {
+						if m := re.FindString(l); m != "" {
+							got = append(got, m)
+						}
+					}
+					want := []string{}
+					for i := len(s.written) - 1; i >= 0 && len(want) < logging.BufferSize; i-- {
+						want = append(want, s.written[i])
+					}
+					if d := diff(got, want); d != "" {
+						t.Fatalf("handler of stream %s, detail %d, %s (%d entries written): %s", s.name, detail, when, len(s.written), d)
+					}
+				}
+			}
+			check("before any entry")
+			for i := 0; i < counts[si]; i++ {
+				msg := fmt.Sprintf("hm-%d-%s-end", i, s.name)
+				l := s.lg
+				if (uint64(i)+seed)%3 == 0 {
+					l = derived
+				}
+				l.Info(msg, zap.Int("n", i))
+				s.written = append(s.written, msg)
+				if i == 1 || i == counts[si]/2 {
+					check(fmt.Sprintf("after %d entries", i+1))
+				}
+			}
+			check("at the end")
+			ev.Case(fmt.Sprintf("handlers/%s/%d", s.name, counts[si]), counts[si] > logging.BufferSize, "http-handlers")
 		}
 	})
 }
